@@ -451,3 +451,15 @@ func (pc *PathConds) ImpliesEdge(from, to *ssa.BasicBlock, pred func(lits []Lit)
 	}
 	return true, any
 }
+
+// ImpliesDom: pred is implied at b or at one of b's dominators. A fact established at a dominator D
+// still holds at b: every path to b passes D after the last (re)definition of the SSA values the fact
+// mentions (their definitions dominate D). Used where the DNF at b itself was collapsed.
+func (pc *PathConds) ImpliesDom(b *ssa.BasicBlock, pred func(lits []Lit) bool) bool {
+	for d := b; d != nil; d = d.Idom() {
+		if holds, reach := pc.Implies(d, pred); holds && reach {
+			return true
+		}
+	}
+	return false
+}
